@@ -311,6 +311,15 @@ RESTART:
 		return tmconsensus.HandleProposedHeaderBadBlockHash
 	}
 
+	// The block hash only covers the hashes of the two validator sets.
+	// The validators themselves are listed next to those hashes,
+	// and the lists are what the next height's view is built from,
+	// so they have to be the lists those hashes were computed from.
+	if !tmi.ValidatorSetMatchesHashes(ph.Header.ValidatorSet, m.hashScheme) ||
+		!tmi.ValidatorSetMatchesHashes(ph.Header.NextValidatorSet, m.hashScheme) {
+		return tmconsensus.HandleProposedHeaderBadBlockHash
+	}
+
 	// Validate the signature based on the public key the kernel reported.
 	signContent, err := tmconsensus.ProposalSignBytes(ph.Header, ph.Round, ph.Annotations, m.sigScheme)
 	if err != nil {
